@@ -111,10 +111,18 @@ theorem adv_scWake (hne : s.rt ≠ .exited) (h : s.sc = .sleeping) (hc : s.creq 
   · simp [step, hne, h, hc]
   · simp only [mu, h, scRank]; omega
 
-theorem adv_scWaitRootsEnd (hne : s.rt ≠ .exited) (h : s.sc = .waitRoots) (ho : othersEnded s = true) :
-    Advance cfg s := by
+theorem adv_scWaitRootsEnd (hne : s.rt ≠ .exited) (h : s.sc = .waitRoots) (ho : othersEnded s = true)
+    (hc : s.creq (.root .startupCleanup) = false) : Advance cfg s := by
   apply Advance.mk .scWaitRootsEnd { s with sc := .stopCore .none } rfl (by intro n h; cases h)
-  · simp [step, hne, h, ho]
+  · simp [step, hne, h, ho, hc]
+  · simp only [mu, h, scRank]; omega
+
+/-- a repeated cancellation is pending while the task waits for the other root tasks: it leaves without the cleanup -/
+theorem adv_scCut_waitRoots (hne : s.rt ≠ .exited) (h : s.sc = .waitRoots) (hc : s.creq (.root .startupCleanup) = true) :
+    Advance cfg s := by
+  apply Advance.mk .scCut { s with sc := .stopCore .cancelled, creq := upd s.creq (.root .startupCleanup) false } rfl
+    (by intro n h; cases h)
+  · simp [step, hne, h, hc]
   · simp only [mu, h, scRank]; omega
 
 theorem adv_scStopCore (hne : s.rt ≠ .exited) (p : Pend) (h : s.sc = .stopCore p) : Advance cfg s := by
